@@ -162,7 +162,54 @@ def check_sweep(case, log, y):
     return None
 
 
-def run_case(case, seed, steps, rng):
+def bounds_msg(wm):
+    """every precision inside its documented bounds: [1/sqrt(1+n), 1e6] (local scales: 1/sqrt(1+N1+N2) per treatment) - the `Clipped` terms of Gibbs.tla"""
+    lo = 1.0 / np.sqrt(1.0 + wm.n_obs())
+    N = np.array([len(wm.dd1_idxs[c]) + len(wm.dd2_idxs[c]) for c in range(wm.n_drugdoses)], dtype=float)
+    lo_t = 1.0 / np.sqrt(1.0 + N)
+    for name in ("prec", "eta0", "eta1", "eta2", "tau", "tau0"):
+        if name == "prec" and wm.n_obs() == 0:
+            continue          # without data the noise precision is a plain prior draw (PrecObs, N = 0, in Gibbs.tla): no bound is documented
+        v = np.asarray(getattr(wm, name), dtype=float)
+        if v.size and (not np.all(np.isfinite(v)) or v.min() < lo * (1 - 1e-5) or v.max() > 1e6 * (1 + 1e-5)):
+            return "%s = %s leaves its documented bounds [%.6g, 1e6]" % (name, v, lo)
+    for name in ("phi0", "phi1", "phi2"):
+        v = np.asarray(getattr(wm, name), dtype=float)
+        l = lo_t if v.ndim == 1 else lo_t[:, None]
+        if v.size and (not np.all(np.isfinite(v)) or np.any(v < l * (1 - 1e-5)) or v.max() > 1e6 * (1 + 1e-5)):
+            return "%s leaves its documented bounds [1/sqrt(1+N1+N2), 1e6]: %s" % (name, v)
+    return None
+
+
+def long_chain(D, n_samples, steps, seed):
+    """many sweeps with a large embedding: only the state invariants (bounds, fitted-value cache) are evaluated"""
+    rng = np.random.default_rng(seed)
+    rows = [{"c": int(rng.integers(n_samples)), "d1": int(a), "d2": int(b)} for a, b in [(0, 1), (0, -1), (-1, 1), (1, 0)]][: 2 + seed % 3]
+    scr = screen_of(rows, rng)
+    model = SC.SparseDrugCombo(experiment_space=ExperimentSpace.from_screen(scr), n_embedding_dimensions=D)
+    model.add_observations(scr)
+    wm = model.wrapped_model
+    saved = np.random.get_state()
+    np.random.seed(seed)
+    try:
+        for step in range(steps):
+            st, r = outcome(model.step)
+            if st != "ok":
+                return "step %d raised %s" % (step, r)
+            msg = bounds_msg(wm)
+            if msg:
+                return "after step %d: %s" % (step + 1, msg)
+            mu = np.asarray(wm.Mu, dtype=float).copy()
+            wm._reconstruct_Mu(clip=False)
+            mu2 = np.asarray(wm.Mu, dtype=float)
+            if not np.allclose(mu, mu2, rtol=0, atol=2e-3 * (1 + np.abs(mu2).max() + float(np.abs(np.asarray(wm.W, dtype=float)).max()) ** 2 * D)):
+                return "after step %d the running fitted values %s differ from those implied by the parameters %s" % (step + 1, mu, mu2)
+    finally:
+        np.random.set_state(saved)
+    return None
+
+
+def run_case(case, seed, steps, rng, inject=False):
     rows, D = case["rows"], case["D"]
     scr = screen_of(rows, rng)
     model = SC.SparseDrugCombo(experiment_space=ExperimentSpace.from_screen(scr), n_embedding_dimensions=D)
@@ -177,11 +224,15 @@ def run_case(case, seed, steps, rng):
     np.random.normal, np.random.gamma, SC.sample_mvn_from_precision = rec.normal, rec.gamma, rec.mvn
     try:
         for step in range(steps):
+            if inject and step == 1:
+                # any parameter vector is a reachable state of the Gaussian blocks: continue from one whose fitted values are far out
+                wm.W0[...] = (wm.W0 + rng.choice([-13.0, 12.0], size=np.shape(wm.W0))).astype(wm.W0.dtype)
+                wm.V0[...] = (wm.V0 * 3).astype(wm.V0.dtype)
             rec.log.clear()
             st, r = outcome(model.step)
             if st != "ok":
                 return "step %d raised %s" % (step, r)
-            msg = check_sweep(case, list(rec.log), y)
+            msg = check_sweep(case, list(rec.log), y) or bounds_msg(wm)
             if msg:
                 return "step %d: %s" % (step + 1, msg)
             # exported posterior sample reproduces the sampler's fitted values and noise precision
@@ -266,7 +317,7 @@ def run(ctx):
         scripts = r.by_tag("gibbs")
         nbad = 0
         for i, case in enumerate(scripts):
-            msg = run_case(case, ctx.seed * 100 + i, 3 if ctx.quick else 8, rng)
+            msg = run_case(case, ctx.seed * 100 + i, 3 if ctx.quick else 8, rng, inject=(i % 3 == 2))
             ctx.evaluations += 1
             if msg:
                 what = "dataset %s, D=%d: %s" % ([(x["c"], x["d1"], x["d2"]) for x in case["rows"]], case["D"], msg)
@@ -279,6 +330,11 @@ def run(ctx):
         if not selfpairs:
             ctx.traces += len(scripts)
             ctx.sample({"dataset": scripts[3]["rows"], "D": scripts[3]["D"], "first_draw": scripts[3]["script"][0]})
+    for k, D in enumerate([12, 16, 8] if ctx.quick else [8, 12, 16, 20, 12, 16, 24]):
+        msg = long_chain(D, 1 + k % 2, 80 if ctx.quick else 300, ctx.seed * 10 + k)
+        ctx.evaluations += 1
+        if msg:
+            ctx.violation("long chain, D=%d: %s" % (D, msg), {"kind": "long", "D": D})
     for D in (1, 2, 3, 4):
         for _ in range(3):
             msg = check_mvn(rng, D)
